@@ -199,3 +199,13 @@ Theorem C04_count_model_kernel : forall l1 maxKB, 16 <= maxKB -> maxKB <= 8192 -
   N.of_nat (length (sieve_model l1 maxKB start stop)) = count_primes_spec start stop.
 Proof. exact count_model_spec. Qed.
 Print Assumptions C04_count_model_kernel.
+
+(** the masks applied to the first byte of the first segment and the last byte of the last segment are exact *)
+From PS Require Import Model.Count.
+Theorem C04_end_masks_ok :
+  length unsetSmaller = 37%nat /\ length unsetLarger = 37%nat /\
+  forallb (fun r => forallb (fun b =>
+      Bool.eqb (N.testbit (nthN' unsetSmaller r) (N.of_nat b)) (r <=? nth b bv 0) &&
+      Bool.eqb (N.testbit (nthN' unsetLarger r) (N.of_nat b)) (nth b bv 0 <=? r)) (seq 0 8)) (Nseq 37) = true.
+Proof. exact end_masks_ok. Qed.
+Print Assumptions C04_end_masks_ok.
